@@ -23,6 +23,8 @@ import (
 	_ "verifsim/shapes/doc"
 	_ "verifsim/shapes/flat"
 	_ "verifsim/shapes/nested"
+	_ "verifsim/shapes/person"
+	_ "verifsim/shapes/rep3"
 )
 
 type task struct {
